@@ -3,6 +3,7 @@ package main
 // Loop cutting at invariants.
 
 import (
+	"os"
 	"fmt"
 	"go/types"
 	"sort"
@@ -98,6 +99,9 @@ func (x *Exec) collectEffects(fn *ssa.Function, blocks map[*ssa.BasicBlock]bool,
 	addWrite := func(addr ssa.Value, inLoopAllocOK bool) {
 		al, rt, elem := addrRoot(addr)
 		if rt == nil {
+			if os.Getenv("GOCV_DEBUG") != "" {
+				fmt.Fprintf(os.Stderr, "untraceable write address in %s: %s (%T) type %s\n", fn.Name(), addr.String(), addr, addr.Type())
+			}
 			eff.unknown = true
 			return
 		}
@@ -205,6 +209,18 @@ func (x *Exec) collectEffects(fn *ssa.Function, blocks map[*ssa.BasicBlock]bool,
 					continue
 				}
 				if callee == nil && !c.IsInvoke() {
+					// a function-valued package variable of a dependency (sdk.ZeroInt = math.ZeroInt, sdk.NewInt, errors.Wrap ...):
+					// package-level variables are never reassigned (C11), so this is the call the executor resolves to its library
+					// model; the model's ghost writes are its effects
+					if u, ok := c.Value.(*ssa.UnOp); ok {
+						if g, ok := u.X.(*ssa.Global); ok && g.Pkg != nil && !strings.HasPrefix(g.Pkg.Pkg.Path(), repoModule) {
+							gname := "globfn:" + g.Pkg.Pkg.Path() + "." + g.Name()
+							for _, gw := range libGhostWrites[normLib(gname)] {
+								eff.ghosts[gw] = true
+							}
+							continue
+						}
+					}
 					// call through a function value: look for closures bound in this function
 					if depth == 0 {
 						x.effectsOfFuncValue(fn, c.Value, eff, depth, seen, addWrite)
